@@ -243,6 +243,19 @@ func blobTxOf(r *Rng, blobs []genBlob) []byte {
 	return out
 }
 
+// blobTxWithInner: a blob transaction with exactly this inner transaction.
+func blobTxWithInner(inner []byte, blobs []genBlob) []byte {
+	bs := make([]*share.Blob, len(blobs))
+	for i, g := range blobs {
+		bs[i] = g.blob()
+	}
+	out, err := tx.MarshalBlobTx(inner, bs...)
+	if err != nil {
+		panic("harness: MarshalBlobTx: " + err.Error())
+	}
+	return out
+}
+
 type genTx struct {
 	raw   []byte
 	blobs []genBlob // nil for a normal tx
